@@ -185,7 +185,12 @@ pub fn layout(obs: &Obs, overlay: bool) -> Result<Layout, String> {
     l.zp_end = zp as u16;
 
     // split-port RAM
-    let cfg = split_cfg_for(&obs.scheme);
+    let mut cfg = split_cfg_for(&obs.scheme);
+    if cfg.is_none() && obs.vars.iter().any(|v| v.mem == Mem::Superchip && v.def == Def::None) {
+        // the builder only switches to a superchip scheme when a non-array superchip variable
+        // exists; the code generator applies the port offsets to every superchip variable
+        cfg = split_cfg_for("F8S");
+    }
     let mut sp: u32 = cfg.as_ref().map(|c| c.symbase as u32).unwrap_or(0x1000);
     for v in &obs.vars {
         let is_split = match v.mem {
@@ -301,6 +306,7 @@ pub const ORG: u16 = 0xF000;
 pub fn build_image(obs: &Obs, overlay: bool) -> Result<Built, String> {
     let mut lay = layout(obs, overlay)?;
     let mut input = AsmInput { symbols: lay.symbols.clone(), org: ORG, ..Default::default() };
+    input.wide_rel = false;
     for f in &obs.funcs {
         if let Some(t) = &f.text {
             if f.inline {
